@@ -58,12 +58,14 @@ theorem strict_ok_lax_same_exts (g : Mem) (sm : Bool) (nh o l : Nat) (r : ExtsOu
 theorem lax_err_iff_first_header_ethernet (g : Mem) (n : Nat) :
     (∃ e, laxSlicedFromEthernet g n = .error e) ↔ n < 14 := by
   unfold laxSlicedFromEthernet eth2FromSlice
-  split <;> simp_all
+  by_cases h : n < 14 <;> simp [h]
 
 theorem lax_err_iff_first_header_ip (g : Mem) (n : Nat) :
     (∃ e, laxSlicedFromIp g n = .error e) ↔ ∃ e, ipDispatchHeader g false 0 n = .error e := by
   unfold laxSlicedFromIp laxIpSliceFromSlice
-  split <;> simp_all
+  cases hd : ipDispatchHeader g false 0 n with
+  | error e => simp
+  | ok x => cases x <;> simp
 
 /-- (`LaxSlicedPacket::from_ether_type` returns no `Result` at all: it is total by its type.) -/
 theorem lax_ether_type_total (g : Mem) (et n : Nat) : ∃ p, laxSlicedFromEtherType g et n = p := ⟨_, rfl⟩
